@@ -83,8 +83,8 @@ def seeded():
 
 def theorems():
     from bv import common
-    rows = ['| Property | theorems in Props.lean | Lean lines (model / proofs+props) |', '|---|---|---|']
-    tot = 0
+    rows = ['| Property | theorems in Props.lean | source-tie theorems (SrcTie.lean) | Lean lines (model / proofs+props) |', '|---|---|---|---|']
+    tot = tots = 0
     for i in range(1, 21):
         pid = 'C%02d' % i
         d = os.path.join(VERIF, 'lean', 'BoltonsVerif', pid)
@@ -92,6 +92,11 @@ def theorems():
             continue
         names = common.theorem_names(pid)
         tot += len(names)
+        try:
+            st = common._srctie_theorems(pid)[1]
+        except Exception:  # noqa: BLE001
+            st = []
+        tots += len(st)
         ml = pl = 0
         for f in os.listdir(d):
             if f.endswith('.lean'):
@@ -100,8 +105,8 @@ def theorems():
                     ml += k
                 else:
                     pl += k
-        rows.append('| %s | %d | %d / %d |' % (pid, len(names), ml, pl))
-    rows.append('| total | %d | |' % tot)
+        rows.append('| %s | %d | %s | %d / %d |' % (pid, len(names), len(st) or '', ml, pl))
+    rows.append('| total | %d | %d | |' % (tot, tots))
     return '\n'.join(rows)
 
 
